@@ -23,7 +23,7 @@ from harness.translators import template as tr
 FMT_ID = {"yaml": 0, "json": 1, "pickle": 2}
 KIND = {"file": "KFile", "memory": "KMem", "chained": "KChained"}
 ERR_CODE = {"ok": 0, "Conflict": 1, "NotFound": 2, "FileIntegrityError": 3, "DimensionName": 5, "KeyError": 5,
-            "ValueError": 6, "NotImplementedError": 7}
+            "ValueError": 6, "NotImplementedError": 7, "TypeError": 8}
 DT_DIMS = {"dtD": ("instrument", "detector"), "dtL": ("instrument",), "dtF": ("instrument", "physical_filter")}
 UNKNOWN = 999999
 
@@ -179,10 +179,13 @@ def gen_history(r, nops, collide, cfgs):
                     S["stored"].add(k)
         elif c < 0.69:
             src = "B" if repo == "A" else "A"
-            if cfgA["ds"] == "file" and cfgB["ds"] == "file" and sh[src]["reg"]:
+            if sh[src]["reg"]:
+                # every pair of datastore kinds: pairs the code refuses (TypeError) are part of the comparison
                 k = r.choice(list(sh[src]["reg"]))
                 op = {"op": "xfer", "from": src, "to": repo, "k": k}
-                if k in sh[src]["stored"] and sh[src]["reg"][k] not in [v for kk, v in S["reg"].items() if kk != k]:
+                kd, ks = (cfgA if repo == "A" else cfgB)["ds"], (cfgA if src == "A" else cfgB)["ds"]
+                if ((kd, ks) in XFER_OK and k in sh[src]["stored"]
+                        and sh[src]["reg"][k] not in [v for kk, v in S["reg"].items() if kk != k]):
                     S["reg"][k] = sh[src]["reg"][k]
                     S["stored"].add(k)
         elif c < 0.79:
@@ -213,12 +216,19 @@ def gen_history(r, nops, collide, cfgs):
     return {"cfgA": cfgA, "cfgB": cfgB, "setup": setup, "payloads": payloads, "ops": ops}
 
 
+# (target kind, source kind) pairs for which Butler.transfer_from moves artifacts (generator's shadow only; the
+# model's table is xfer_refused in Model/DatastoreCheck.v, the implementation decides for itself)
+XFER_OK = {("file", "file"), ("chained", "file"), ("chained", "chained")}
+
+
 def pick_cfgs(r):
     c = r.random()
-    if c < 0.55:
+    if c < 0.5:
         return {"ds": "file", "fmt": r.choice(list(FMT_ID))}, {"ds": "file", "fmt": r.choice(list(FMT_ID))}
-    if c < 0.8:
+    if c < 0.7:
         return {"ds": "chained", "fmt": r.choice(list(FMT_ID))}, {"ds": "file", "fmt": r.choice(list(FMT_ID))}
+    if c < 0.8:
+        return {"ds": "chained", "fmt": r.choice(list(FMT_ID))}, {"ds": "chained", "fmt": r.choice(list(FMT_ID))}
     return {"ds": "memory", "fmt": "yaml"}, {"ds": r.choice(["file", "chained"]), "fmt": r.choice(list(FMT_ID))}
 
 
@@ -319,7 +329,9 @@ def oracle(ctx: Ctx, h, res, origin: str):
                     joined = {"_".join(_san(x[kk]) for kk in order if kk in x) for x in f}
                     same_dirs = len({(x["run"].replace(" ", "_"), x["datasetType"], _dir_part(x)) for x in f}) == 1
                     kind_of = "sanitise" if same_after_san else ("separator" if len(joined) == 1 and same_dirs else "other")
-                    rank = {None: 0, "sanitise": 1, "separator": 2, "other": 3}
+                    if kind_of == "other" and any("%" in str(v) for x in f for v in x.values()):
+                        kind_of = "percent"      # a value contains '%': ResourcePath percent-decodes the template output
+                    rank = {None: 0, "sanitise": 1, "separator": 2, "percent": 3, "other": 4}
                     for k in ks:
                         if rank[kind_of] > rank[book[R][k]["taint"]]:
                             book[R][k]["taint"] = kind_of
@@ -704,7 +716,8 @@ def run(ctx: Ctx):
                 ctx.hist("corpus", f"{name}:no-longer-fails")
             else:
                 ctx.hist("corpus", f"{name}:still-fails")
-    correspond(ctx, "corpus", pairs)
+    # entries marked no_model use names outside the Coq model's domain ('%', percent-decoded by ResourcePath): oracle only
+    correspond(ctx, "corpus", [pr for (name, c), pr in zip(corpus, pairs) if not c.get("no_model")])
 
     # 2. template-only cases
     template_cases(ctx)
